@@ -86,7 +86,7 @@ AS_POOL4 = [65536, 70000, 4200000000, 4294967295]
 
 def plan(tier, seed):
     n = 16 if tier == 'quick' else 64
-    per = 40 if tier == 'quick' else 450
+    per = 160 if tier == 'quick' else 900
     return [{'shard': i, 'configs': per, 'opens': 7} for i in range(n)]
 
 
